@@ -45,15 +45,15 @@ CHECKS = {
                 text='TLC checks ver never increases on the envelope; on traces every sent PDU must carry the negotiated version, a differing version on any other PDU must be answered by an Unexpected-Protocol-Version report with nothing applied, End of Data formats are tied to their version, and the three downgrade triggers (first PDU, error code 4 => immediate reconnect, hang-up before any answer) are the only ones.',
                 note="small alphabets on the model side (cfg header); finite seeded conversations on the code side; the simulated cache closes the connection after an Error Report; NDEBUG+ASan build, virtual clock via --wrap; trusts TLC and the harness's PDU codec/logging"),
     "C14": dict(engine="fsm", cat="model_checking", ref="5/C14",
-                technique='owed-report bookkeeping in RtrSocket.tla + byte-level parsing of everything the client writes (harness) + trace validation of every Error Report (code, byte-exact encapsulated prefix, lengths) (monitor OK_C14)',
+                technique='owed-report bookkeeping in RtrSocket.tla + TLC on TrAll.tla (transport loops: all octets or an error, one deadline per invocation) + byte-level parsing of everything the client writes under partial writes and passing time (harness) + trace validation of every Error Report (code, byte-exact encapsulated prefix, lengths) and of the timeouts of every transport send call (monitor OK_C14)',
                 text='The harness splits the concatenated bytes written on a connection into PDUs by their length fields under scripted partial writes; TLC requires, for every violation class the cache script produces, exactly one Error Report with an admissible code, an encapsulated PDU that is a byte-exact prefix of the offending frame as sent, consistent lengths, size <= 3248 and the negotiated version, and none in reply to an Error Report.',
                 note="small alphabets on the model side (cfg header); finite seeded conversations on the code side; the simulated cache closes the connection after an Error Report; NDEBUG+ASan build, virtual clock via --wrap; trusts TLC and the harness's PDU codec/logging"),
     "C17": dict(engine="fsm", cat="model_checking", ref="5/C17",
-                technique="ApplyIv/NewIv in RtrSocket.tla + I_C17 on MCRtrSocket + trace validation of the socket's intervals after every event, of rtr_init's verdict and of every receive timeout while established (monitor OK_C17)",
+                technique="ApplyIv/NewIv in RtrSocket.tla + I_C17 on MCRtrSocket + TLC on TrAll.tla (one deadline per receive invocation) + trace validation of the socket's intervals after every event, of rtr_init's verdict and of the timeout of every transport receive call, also inside trickling frames (monitor OK_C17)",
                 text="Boundary values (0, lo-1, lo, lo+1, hi-1, hi, hi+1, 2^31, 2^32-1) for all three intervals in End of Data under all four modes and initial settings; TLC recomputes the socket's intervals after every End of Data, checks v0 never changes them, that rtr_init rejects out-of-range settings, and that the timeout handed to the transport while established is max(0, last sync + refresh - now) followed at once by a Serial Query.",
                 note="small alphabets on the model side (cfg header); finite seeded conversations on the code side; the simulated cache closes the connection after an Error Report; NDEBUG+ASan build, virtual clock via --wrap; trusts TLC and the harness's PDU codec/logging"),
     "C15": dict(engine="mgr", cat="model_checking", ref="5/C15",
-                technique="TLC on MCRtrMgr (RtrMgr.tla: rtr_mgr_cb and friends as coded; the four clauses of C15 as action properties) + trace validation of the real rtr_mgr code under TLC-generated and seeded event sequences (RtrMgrTrace.tla)",
+                technique="TLC on MCRtrMgr (RtrMgr.tla: rtr_mgr_cb and friends as coded; the four clauses of C15 as action properties) + trace validation of the real rtr_mgr code under TLC-generated and seeded event sequences (RtrMgrTrace.tla) + trace validation of the real rtr_start/rtr_stop under stop/start cycles against what the manager model assumes of the socket layer (RtrSocketTrace.tla, monitor OK_STUB)",
                 text="TLC explores every sequence of legal socket state changes, expiries, group additions and removals for 3x1, 2x2 (quick) and dynamic (thorough) configurations and checks: ESTABLISHED only if all sockets hold data, all less-preferred groups closed on establishment, never stopped for a worse group, failover starts the most-preferred closed group. The real rtr_mgr_init/cb/add/remove (rtr_start/rtr_stop link-wrapped) is driven by TLC-generated and seeded sequences incl. invalid configurations; statuses in for_each order, first group, running sockets, callbacks and return codes are checked by TLC after every step.",
                 note="rtr_start/rtr_stop are stubs reproducing their state effects; bounded configurations on the model side; seeded samples on the code side; NDEBUG+ASan"),
     "C04": dict(engine="fsm", cat="exploration", ref="5/C04",
